@@ -409,10 +409,10 @@ def _gen(ctx, emit):
         for name in ("btc", "grs"):
             every(name, t, ["script", "payable", "call"], kinds=False)
     alphabet = "0123456789abcdefABCDEFxX_+-:/,. \t\n'[]OP_1EHlIO\u00e9\u00df\u0131\u017f\u0661\uff11\u2003\u00a0\U0001f600\ud800"
-    for _ in range(ctx.n(150, 3000)):
+    for _ in range(ctx.n(150, 20000)):
         t = "".join(rng.choice(alphabet) for _ in range(rng.randrange(1, 12)))
         every(rng.choice(few), t, ["call", "public_key", "secret", "script", "bip32_seed", "hd_seed", "sec", "secret_exponent", "public_pair"], kinds=False)
-    for _ in range(ctx.n(100, 2000)):
+    for _ in range(ctx.n(100, 10000)):
         t = "".join(chr(rng.choice([rng.randrange(32, 127), rng.randrange(0x80, 0x3000), rng.randrange(0x3000, 0x11000)])) for _ in range(rng.randrange(1, 10)))
         every(rng.choice(few), t, ["call", "public_key", "hierarchical_key"], kinds=False)
 
